@@ -6,6 +6,7 @@ CONSTANTS
   PreStates <- UPre
   GuardFinal = TRUE
   FileRoots = TRUE
+  MatchPaths <- NoMatch
 SPECIFICATION Spec
 CHECK_DEADLOCK FALSE
 INVARIANT Emit
